@@ -23,9 +23,9 @@ EXTENDS AdfSem, AdfSyntax, ServerShapes, Integers, Json, IOUtils, TLC
 
 Rec == ndJsonDeserialize(IOEnv.TRACE)
 
-VARIABLES l, codes, lastpw, prevprobs, actors, race, quiet, asked, granted
+VARIABLES l, codes, lastpw, prevprobs, actors, race, quiet, asked, granted, acct
 
-vars == <<l, codes, lastpw, prevprobs, actors, race, quiet, asked, granted>>
+vars == <<l, codes, lastpw, prevprobs, actors, race, quiet, asked, granted, acct>>
 
 RangeOf(sq) == { sq[i] : i \in DOMAIN sq }
 Report(ok, id, prop, what) == ok \/ PrintT(<<"MISMATCH", l, id, prop, what, race>>)
@@ -155,6 +155,12 @@ CheckHttp(r) ==
   \* (an unnamed add gets a generated name: any accepted add of this person explains a running Parse)
   /\ \A i \in DOMAIN shown : \A t \in RangeOf(shown[i].running) :
        Report(<<r.p, shown[i].name, t>> \in asked \/ (t = "Parse" /\ \E a \in asked : a[1] = r.p /\ a[3] = "Parse" /\ a[2] = ""), r.id, "C16", <<"running-task-nobody-started-for-this-problem", t>>)
+  \* C17 ("what it would be if that user were alone"): the account this request speaks for still has every problem that was
+  \* added to it and not deleted - a rename takes them all along, nobody else's request makes them vanish
+  /\ (race \in {"none", "delete-second-command"} /\ r.me \in DOMAIN acct /\ r.status = 200 /\ r.op = "list") =>
+       Report(acct[r.me] \subseteq { shown[i].name : i \in DOMAIN shown }, r.id, "C17", "own-problem-missing-from-list")
+  /\ (race \in {"none", "delete-second-command"} /\ r.me \in DOMAIN acct /\ r.op = "get" /\ r.args.name \in acct[r.me]) =>
+       Report(r.status = 200, r.id, "C17", "own-problem-not-found")
   \* C16: every strategy can be had: a solve is refused as "already solved / running" only if this person was granted that very
   \* solve for that problem before (and has not deleted the problem since)
   /\ (r.op = "solve" /\ r.status = 409 /\ race = "none") =>
@@ -222,14 +228,14 @@ CheckDb(r) ==
 
 \* ------------------------------------------------------------------ the trace machine
 Init == /\ l = 1 /\ codes = [q \in 1..3 |-> {}] /\ lastpw = [x \in {} |-> ""] /\ prevprobs = <<>>
-        /\ actors = {} /\ race = "none" /\ quiet = TRUE /\ asked = {} /\ granted = {}
+        /\ actors = {} /\ race = "none" /\ quiet = TRUE /\ asked = {} /\ granted = {} /\ acct = [x \in {} |-> {}]
 
 Next ==
   /\ l <= Len(Rec) /\ l' = l + 1
   /\ LET r == Rec[l] IN
      CASE r.kind = "reset" ->
             /\ codes' = [q \in 1..3 |-> {}] /\ lastpw' = [x \in {} |-> ""] /\ prevprobs' = <<>> /\ actors' = {}
-            /\ race' = (IF "race" \in DOMAIN r THEN r.race ELSE "none") /\ quiet' = TRUE /\ asked' = {} /\ granted' = {}
+            /\ race' = (IF "race" \in DOMAIN r THEN r.race ELSE "none") /\ quiet' = TRUE /\ asked' = {} /\ granted' = {} /\ acct' = [x \in {} |-> {}]
        [] r.kind = "http" ->
             /\ CheckHttp(r) \in BOOLEAN
             /\ codes' = IF r.op = "add" /\ r.p # 0 THEN [codes EXCEPT ![r.p] = @ \cup {r.args.code}] ELSE codes
@@ -247,12 +253,23 @@ Next ==
                            ELSE IF r.op = "delete" THEN { a \in granted : ~(a[1] = r.p /\ a[2] = r.args.name) }
                            ELSE IF r.op = "delete_account" THEN { a \in granted : a[1] # r.p }
                            ELSE granted
+            \* the problems of each ACCOUNT as the observer knows them (accounts are followed through renames by the cookie's name
+            \* before the request, r.me; temporary accounts have no known name and are not followed)
+            /\ acct' = LET known == r.me \notin {"-", "<temp>"}
+                            cur == IF r.me \in DOMAIN acct THEN acct[r.me] ELSE {}
+                            Without(n) == [x \in DOMAIN acct \ {n} |-> acct[x]] IN
+                        IF r.status # 200 \/ ~known THEN acct
+                        ELSE CASE r.op = "add" /\ r.args.name # "" -> (r.me :> (cur \cup {r.args.name})) @@ acct
+                               [] r.op = "delete" -> (r.me :> (cur \ {r.args.name})) @@ acct
+                               [] r.op = "update" -> (r.args.username :> cur) @@ Without(r.me)
+                               [] r.op = "delete_account" -> Without(r.me)
+                               [] OTHER -> acct
             /\ UNCHANGED <<prevprobs, race, quiet>>
        [] r.kind = "db" ->
             /\ CheckDb(r) \in BOOLEAN
             /\ prevprobs' = r.dump.probs /\ actors' = {} /\ quiet' = (r.pending_writes = 0)
-            /\ UNCHANGED <<codes, lastpw, race, asked, granted>>
-       [] OTHER -> UNCHANGED <<codes, lastpw, prevprobs, actors, race, quiet, asked, granted>>
+            /\ UNCHANGED <<codes, lastpw, race, asked, granted, acct>>
+       [] OTHER -> UNCHANGED <<codes, lastpw, prevprobs, actors, race, quiet, asked, granted, acct>>
 
 Spec == Init /\ [][Next]_vars
 Consumed == (TLCGet("stats").diameter - 1 = Len(Rec))
